@@ -124,9 +124,10 @@ package validation
 //@ extern func Validator.ValidateTaskTemplate
 //@   params v, spec, fldPath
 //@   fresh result
-//@ extern func Validator.ValidateOptionSpec
-//@   params v, spec, fldPath
-//@   fresh result
+//@ import options "github.com/furiko-io/furiko/pkg/core/options"
+//@ func Validator.ValidateOptionSpec
+//@   tags C17, C18
+//@   ensures [C17,C18] accepted-spec-has-distinct-option-names: spec != nil && len(result) == 0 ==> options.distinctNames(spec.Options)
 
 //@ pure parallelismOK(spec *v1alpha1.ParallelismSpec) bool = numTypes(spec) == 1 && (spec.WithCount != nil ==> *spec.WithCount > 0)
 //@     && (spec.WithCount == nil && len(spec.WithKeys) == 0 && len(spec.WithMatrix) > 0 ==> matrixOK(spec.WithMatrix))
@@ -166,6 +167,7 @@ package validation
 //@   requires spec != nil
 //@   ensures [C17] accepted-jobconfig-is-processable: len(result) == 0 ==> templateOK(addr(spec.Template.Spec))
 //@        && (spec.Schedule != nil ==> spec.Schedule.Cron != nil && cron.cronAccepted(spec.Schedule.Cron, curCronKind()))
+//@        && (spec.Option != nil ==> options.distinctNames(spec.Option.Options))
 
 //@ func Validator.ValidateJobConfig
 //@   tags C17
